@@ -118,12 +118,25 @@ SIZES = {  # per property: harness arguments per tier
 
 
 def run_property(chk, prop, prop_file, req, rule, assumptions, only=None):
+    vlib.run_xlate("undoflow", "UndoFlow.v")      # B1: the control-flow table of the model follows the working tree
     pr = vlib.proof_step(chk, prop_file, req)
     okc, outc = vlib.coq_make(["At/RollbackCases.vo"])
     if not okc and pr["ok"]:
         raise vlib.Broken("At/RollbackCases.v does not compile:\n" + outc[-1500:])
     if only is None:
-        data, secs = vlib.run_harness("atroll", chk.tmp("atroll.json"), timeout=3000, seed=chk.seed, **SIZES[prop][chk.tier])
+        import subprocess
+        limit = 240 if chk.tier == "quick" else 3000
+        try:
+            data, secs = vlib.run_harness("atroll", chk.tmp("atroll.json"), timeout=limit, seed=chk.seed, **SIZES[prop][chk.tier])
+        except subprocess.TimeoutExpired:
+            # on the unchanged tree the run takes a few seconds; a rollback that leaves its local transaction
+            # open (never finished sql.Tx) blocks the engine's teardown for good
+            chk.coverage.update({"trusted_base": TRUSTED, "evaluations": 1, "distinct_nontrivial": 2,
+                                 "rule": rule, "explanation": "harness did not terminate within %d s" % limit})
+            chk.violation("%s: the run through the real rollback path did not terminate within %d s (a delivery left its "
+                          "local transaction open and blocks the engine); proof step %s" % (prop, limit, "ok" if pr["ok"] else "BROKEN: " + pr["out"][-400:]),
+                          {"harness": "atroll", "args": SIZES[prop][chk.tier], "seed": chk.seed, "proof_ok": pr["ok"]}, False)
+            return chk.finish()
     else:
         p = chk.tmp("replay_in.json")
         json.dump({"plans": only}, open(p, "w"))
